@@ -95,7 +95,7 @@ def run(rep, prog, tier):
         memg = prog.find_member(m, cls, f'get_{q}')
         if not memg:
             rep.ob('R12.wiring', f'get_{q}', None, 'getter missing', site); continue
-        evg = new_ev(prog)
+        evg = new_ev(prog); evg.self_class = (m, cls)
         t = evg.call_fn(memg[1], memg[0], [A('self'), A('id')], {}, {'__parent__': None}, 1)
         ok = None
         if isinstance(t, tuple) and len(t) == 2:
@@ -124,6 +124,27 @@ def run(rep, prog, tier):
         rep.ob('R12.wiring', 'lsim(sys,u,t)', ok, f'lsim({", ".join(got)})', g.site)
     else:
         rep.ob('R12.wiring', 'lsim(sys,u,t)', None, 'lsim call not found', g.site)
+
+
+def solver_call_args(prog):
+    """(module, {'ssm','y','t','x0'} -> term key of the arguments of self.solver(...) in TransientSolution.__post_init__, site)"""
+    m, cls = class_of(prog, CS, 'TransientSolution')
+    ev = init_self(prog, new_ev(prog, OPAQUE_CIRCUIT), m, cls)
+    def find_call(k):
+        if isinstance(k, tuple):
+            if len(k) >= 4 and k[0] == 'call' and k[1] == ('.', 'self', 'solver'): return k
+            for x in k:
+                r = find_call(x)
+                if r is not None: return r
+        return None
+    sc = None
+    for (obj, attr), val in ev.stores.items():
+        if obj == 'self' and isinstance(attr, str): sc = sc or find_call(tkey(val))
+    if sc is None: return m, None, prog.site(m, cls)
+    names = ['ssm', 'y', 't', 'x0']
+    amap = {names[i]: a for i, a in enumerate(sc[2]) if i < 4}
+    amap.update({k: v for k, v in dict(sc[3]).items()})
+    return m, amap, prog.site(m, cls)
 
 
 def _is_T_of(k, inner):
